@@ -1079,6 +1079,11 @@ class Engine:
             v = self.deref(st, a)
             if isinstance(v, (Bytes, SeqV)):
                 return Int(v.len, 64, False)
+            for o in (a, v):
+                # unsized reference to a fixed-size array (e.g. a promoted `&[T; N]`): the metadata is N
+                am = re.match(r'^&?(?:mut )?\[.*; (\d+)\]$', getattr(o, 'ty', '') or '') if isinstance(o, Opaque) else None
+                if am:
+                    return Int(BV(int(am.group(1)), 64), 64, False)
         raise Unsupported('unop %s on %r' % (op, a))
 
     def cast(self, st, a, ty, kind):
@@ -1297,7 +1302,44 @@ class Engine:
             outs.append(s2)
         return outs
 
+    def dyn_concrete(self, st, callee, args):
+        """`<dyn Trait as Trait>::m(obj, ..)`: virtual call -- resolved through the dynamic type of the receiver value"""
+        m = re.match(r'^<dyn ([^ ]+)(?: \+ [^ ]+)* as (.*)>::([A-Za-z_0-9]+)$', callee.strip())
+        if not m or not args:
+            return None
+        v = args[0]
+        seen = 0
+        try:
+            while isinstance(v, Ref) and seen < 6:
+                v = self.load(st, v.cell, v.path)
+                seen += 1
+        except Unsupported:
+            return None
+        if isinstance(v, Agg) and v.name:
+            ty = v.name
+        elif isinstance(v, SeqV) and v.kind == 'vec':
+            ty = 'Vec<%s>' % (v.elem_ty or '_')
+        elif isinstance(v, Bytes):
+            ty = {'string': 'String', 'vec': 'Vec<u8>'}.get(v.kind)
+        elif isinstance(v, Opaque) and v.ty and not v.ty.strip().startswith('dyn ') and 'dyn ' not in v.ty:
+            ty = deref_ty(v.ty) or v.ty
+        else:
+            ty = None
+        if not ty:
+            return None
+        return '<%s as %s>::%s' % (ty, m.group(2), m.group(3))
+
     def dispatch(self, st, fr, callee, args, dest_ty, dcell, ret_bb):
+        dyn_default = None
+        if callee.startswith('<dyn '):
+            cc = self.dyn_concrete(st, callee, args)
+            if cc is not None:
+                self.stats['dyn_dispatch'] = self.stats.get('dyn_dispatch', 0) + 1
+                dm = re.match(r'^<.* as (.*)>::([A-Za-z_0-9]+)$', cc)
+                callee = cc
+                if dm:
+                    # the trait's provided (default) method body, used when the concrete impl does not override it
+                    dyn_default = self.db.by_name.get(strip_generics(dm.group(1)).strip() + '::' + dm.group(2))
         ctx = CallCtx(self, st, fr, callee, args, dest_ty)
         for rx, fnc in self.overrides:
             if rx.search(callee):
@@ -1325,6 +1367,8 @@ class Engine:
                         return PUSHED
                     return r
         target = self.resolve_callee(callee, fr, args)
+        if target is None and dyn_default and len(dyn_default) == 1:
+            target = dyn_default[0]
         if target is not None and len(st.frames) < self.call_depth and not any(r.search(target.name) for r in self.no_inline):
             self.push_frame(st, target, args, dcell, ret_bb)
             self.stats['inlined'][short_fn(target.name)] = self.stats['inlined'].get(short_fn(target.name), 0) + 1
@@ -1434,12 +1478,18 @@ class Engine:
     def call_sub_states(self, st, fn, args):
         """run a repo function (closure) with all its effects and forks; returns [(state, ret)] where each state has the
         caller's frames restored and is ready to continue"""
+        if getattr(self, '_sub_depth', 0) >= 10:
+            return None            # nested closure evaluation deeper than any real call chain here: let the caller havoc
         sub = st.fork()
         saved = sub.frames
         sub.frames = []
         self.push_frame(sub, fn, args, None, None)
         saved_paths = self.stats['paths']
-        finals = self.run(sub)
+        self._sub_depth = getattr(self, '_sub_depth', 0) + 1
+        try:
+            finals = self.run(sub)
+        finally:
+            self._sub_depth -= 1
         self.stats['paths'] = saved_paths
         outs = []
         for f in finals:
